@@ -163,7 +163,7 @@ def run_probe(chk, bindir, name, script, strace=False, inject=None, timeout=120,
             raise core.ToolError("strace produced no log for run " + name)
         r.strace = parse_strace(tp)
     stuck = sum(1 for e in evs if e["ev"] == "diverge" and "in time" in e.get("why", ""))
-    if r.killed or any(e["ev"] == "timeout" for e in evs) or stuck >= 2:
+    if r.killed or r.rc in (-14, 142) or any(e["ev"] == "timeout" for e in evs) or stuck >= 2:
         chk.hangs = getattr(chk, "hangs", 0) + 1
     return r
 
@@ -253,6 +253,11 @@ def strace_threads(recs, main_pid, h_pid, stack_sz):
             if len(a) >= 2 and a[0] == "NULL" and a[1] == str(stack_sz):
                 stack_maps.append(r)
         elif r["call"] in ("clone", "clone3"):
+            # a clone that was interrupted by a signal (e.g. SIGCHLD of a child a closure forked) is
+            # restarted by the kernel: strace shows `= ? ERESTARTNOINTR (To be restarted)` and then the
+            # real attempt - only the latter is an attempt of spawn
+            if r["ret"] == "?" or "ERESTART" in (r.get("note") or ""):
+                continue
             clones.append(r)
     return stack_maps, clones, by_pid
 
@@ -358,7 +363,8 @@ def normalise(run):
         # That is an execution of the code under test: a thread whose closure never got to run.
         t = Thread(0, {"ty": "unit", "fin": "ret", "party": 0})
         t.op = None
-        t.ev = [{"e": "crash"} if not run.killed else {"e": "timeout", "op": "spawn"},
+        hung = run.killed or run.rc in (-14, 142)     # SIGALRM: the probe's own start-up alarm
+        t.ev = [{"e": "timeout", "op": "spawn"} if hung else {"e": "crash"},
                 {"e": "end", "kept": True, "sys": False, "dv": False, "quiet": False}]
         t.raw = list(evs)
         info = {"main": boot["main"], "h": 0, "diverged": False, "steps": [], "stray": 0, "abort": False,
